@@ -133,5 +133,18 @@ theorem addSub_accepts_generic (sub : Bool) (a b : Obj K)
   rcases hca with h1 | h1 <;> rcases hcb with h2 | h2 <;>
     simp [h1, h2, hs, Cls.isSub, Cls.arith, Cls.isLinop]
 
+/-- unpacking of `infer e = ok m` -/
+theorem of_infer {e : LExpr K} {m : Meta} (hm : infer e = .ok m) :
+    ∃ o, build e = .ok o ∧ o.md = m ∧ run e = o.impl := by
+  unfold infer inferC at hm
+  unfold run runC build
+  cases hb : buildC Cfg.fixed e with
+  | error k => simp [hb, Except.map] at hm
+  | ok o =>
+    simp only [hb, Except.map] at hm
+    injection hm with hm
+    exact ⟨o, rfl, hm, rfl⟩
+
+
 end
 end Scico.OpAlg
